@@ -54,6 +54,25 @@ Theorem cleanup_only_after_release :
 Proof. exact cleanup_only_released_lemma. Qed.
 Print Assumptions cleanup_only_after_release.
 
+(** "... after the last computation depending on it is superseded or stopped".  In the model a release is only
+    ever started by the two critical sections that compute [shouldRelease] (release's loop over in-edges,
+    graph.go:127-130, and addOut, graph.go:163), and both decide it only when the node has no dependant left:
+    a computation that is linked below a resource and has not been released itself (released = superseded,
+    stopped or failed) keeps the resource's [out] non-empty, so neither section can decide its release; with
+    [cleanup_only_after_release] the callback cannot run before that.  A computation may still register on a
+    node whose release has already been decided (re-adoption of a cached child, or a resource, in the window
+    before [released] is set): it is linked, and invalidated at once (Edge/Stale invariants).
+    On the implementation the same is an oracle clause, evaluated at the moment the code under test decides a
+    release (resource-released-while-current-computation-depends-on-it): no computation that registered the
+    resource before that moment - directly or through cached children - may still be running, or be the
+    published computation of a rerunner that was not stopped.  A tree that decides otherwise also disagrees
+    with the replay (the recorded shouldRelease differs, component 3). *)
+Theorem release_decided_only_without_dependants :
+  (forall g from n g', g_rel_dep g from n = (g', true) -> n_out (getn g' from) = []) /\
+  (forall g n to g' linked shinv, g_add_out g n to = (g', (linked, shinv, true)) -> n <> to -> n_out (getn g' n) = []).
+Proof. exact release_decided_only_when_no_dependant. Qed.
+Print Assumptions release_decided_only_without_dependants.
+
 (** At quiescence every resource that received at least one addOut and has no dependant left (its [out] is
     empty: every computation that depended on it was superseded, failed or stopped and has been released) is
     released and its callback ran exactly once. *)
